@@ -24,6 +24,9 @@ def run(rep, tier):
              + morecells.kraus_cells(tier, seed)[::k] + morecells.resize_cells(tier, seed)[::k + 1] + morecells.trace_out_cells(tier, seed)[::k + 2]
              + morecells.invalid_cells(tier, seed)[::k + 1] + opcells.autodim_cells(tier, seed)[::k])
     B.run_b(rep, plain, ["C07"], tier=tier)
+    if tier == "thorough":
+        from vf.rtc import histories
+        B.run_b(rep, histories.history_cells(tier, seed), ["C07"], explore=True, tier=tier)
     B.run_b(rep, morecells.stale_cache_cells(tier, seed) + morecells.three_space_cells(tier, seed), ["C07"], explore=True, tier=tier)
     B.run_b(rep, morecells.measure_cells(tier, seed)[::k] + morecells.povm_cells(tier, seed)[::k] + morecells.after_measure_cells(tier, seed)[::k],
             ["C07"], explore=True, tier=tier)
